@@ -70,6 +70,8 @@ type c19Case struct {
 	Spell int `json:"spell,omitempty"`
 	// OutPipe: the containers are written to /dev/stdout, which is a pipe (cim2cas -cas /dev/stdout | ...)
 	OutPipe bool `json:"out_pipe,omitempty"`
+	// EmptyNam: the name has length 0 and -nam is passed all the same (-nam=): the default name applies as when omitted
+	EmptyNam bool `json:"empty_nam,omitempty"`
 }
 
 func image(c *c19Case) []byte {
@@ -266,6 +268,9 @@ func run(c *c19Case) string {
 		args = append(args, "-nam="+c.Name)
 	} else {
 		name = casIn
+		if c.EmptyNam {
+			args = append(args, "-nam=")
+		}
 	}
 	if piped, m = exe("cim2cas", args...); m != "" {
 		return m
@@ -341,7 +346,7 @@ func TestC19(t *testing.T) {
 	}()
 	col.Rule = "cim2bin and cim2cas built from the current tree and executed on rapid-drawn inputs: load offset (edges 0, 1, 0x8000, 0xA000, 0xFFFF and uniform; passed in decimal, 0x-hex or omitted = default 0xA000), " +
 		"image length 1..min(65536-off, 8192) plus exact-fit lengths (end = 0xFFFF, incl. 65536 bytes at offset 0), contents (hashed, container-magic / ^Z / line-end bytes, ramp, whole CP/M records, a BIN container, data containing the cassette sync header and runs of D0 at every alignment), name of 0..12 printable bytes " +
-		"(0 = -nam omitted: the -cim argument as given is the name, also when spelled ./name, d/../name, .//name; 1/4 with multi-byte characters, the field is six bytes), output files fresh, already existing with junk of another length, the input file itself, or /dev/stdout feeding a pipe; image from a file or through /dev/stdin (delivered in 1..4 pieces); oracle = independently written container encoder, output files must be byte-equal, exit status 0, input untouched; " +
+		"(0 = -nam omitted or passed empty: the -cim argument as given is the name, whatever its extension, also when spelled ./name, d/../name, .//name; 1/4 with multi-byte characters, the field is six bytes), output files fresh, already existing with junk of another length, the input file itself, or /dev/stdout feeding a pipe; image from a file or through /dev/stdin (delivered in 1..4 pieces); oracle = independently written container encoder, output files must be byte-equal, exit status 0, input untouched; " +
 		"non-trivial = length >= 2 and (offset not the default or name length != 6); distinct by hash(case)"
 	rapid.Check(t, func(t *rapid.T) {
 		var c c19Case
@@ -388,7 +393,8 @@ func TestC19(t *testing.T) {
 		if len(c.Name) > 0 && c.Name[0] == '-' {
 			c.Name = "N" + c.Name[1:]
 		}
-		c.CimName = rapid.SampledFrom([]string{"a.cim", "input.cim", "zexdoc.cim", "x", "longer-name.cim"}).Draw(t, "cimname")
+		c.CimName = rapid.SampledFrom([]string{"a.cim", "input.cim", "zexdoc.cim", "x", "longer-name.cim", "prog.bas", "GAME.BAS", "data.bin", "tape.cas", "a.rom", "x.asc", "noext."}).Draw(t, "cimname")
+		c.EmptyNam = c.Name == "" && rapid.Bool().Draw(t, "emptyNam")
 		c.Spell = rapid.SampledFrom([]int{0, 0, 0, 1, 2, 3}).Draw(t, "spell")
 		c.OutPipe = rapid.IntRange(0, 4).Draw(t, "outPipe") == 0
 		msg := run(&c)
